@@ -22,6 +22,9 @@ import HcipyVerif.Model.Coronagraph
 * `mstele N D [m] F B L ([S] [w])*L [E]` → `ok nested=0|1 equal=0|1 [msForward exactLevels] [idealForward]`
 * `papply [E]` → `ok [perfectMat T T⁺ c E] pin=powerW pout=powerW`
 * `pmatrix` → `ok row;row;…` the matrix `perfectMatrix T T⁺ c` (`get_transformation_matrix_forward()`)
+* `vvrun [history wl] [table wl] [table ch] [table sh] C2 S2 PLUS` → one chromatic vortex object driven through a history of
+  wavelengths (`chromRun`, parameter = table lookup `wl ↦ (cos δ/2, sin δ/2)`): `ok [vortexTerm entries] [Re V e] [Im V e] [leak per step] [leak per step, shared-instance variant]
+  [Re J per step, 4 entries each] [Im J …] [co re] [co im] [cross re] [cross im]` (`vvLeak`, `retarderJones`, `coPolar`, `crossPolar`)
 -/
 namespace HcipyVerif.Driver.C09
 open HcipyVerif.Proto HcipyVerif.Coronagraph
@@ -73,6 +76,25 @@ def showPad : Pad → String
   | .raises => "value"
 
 def showPair (p : Rat × Rat) : String := s!"{showRat p.1},{showRat p.2}"
+
+def rc (q : Rat) : CRat := ⟨q, 0⟩
+
+def vvRunOp (hist twl tch tsh : List Rat) (c2 s2 : Rat) (plus : Bool) : String :=
+  if twl.length != tch.length || twl.length != tsh.length then "bad-op" else
+  if hist.any (fun wl => !twl.contains wl) then "bad-op" else
+  let table := twl.zip (tch.zip tsh)
+  let param : Rat → Rat × Rat := fun wl => ((table.find? (fun e => e.1 == wl)).map (·.2)).getD (0, 0)
+  let i : CRat := ⟨0, 1⟩
+  let leak (p : Rat × Rat) : Rat := (vvLeak CRat.conj i (rc p.1) (rc p.2) (rc c2) (rc s2) plus).re
+  let used := chromRun param hist
+  let shared := chromRunShared param hist
+  let js := used.map fun p => retarderJones i (rc p.1) (rc p.2) (rc c2) (rc s2)
+  let ents := js.flatMap fun J => [J.j11, J.j12, J.j21, J.j22]
+  let co := used.map fun p => coPolar CRat.conj i (rc p.1) (rc p.2) (rc c2) (rc s2) plus
+  let cr := used.map fun p => crossPolar CRat.conj i (rc p.1) (rc p.2) (rc c2) (rc s2) plus
+  let V := vortexTerm (rc c2) (rc s2)
+  let ve := V.apply (circ i plus)
+  s!"ok {showRatList [V.j11.re, V.j12.re, V.j21.re, V.j22.re]} {showRatList [ve.1.re, ve.2.re]} {showRatList [ve.1.im, ve.2.im]} {showRatList (used.map leak)} {showRatList (shared.map leak)} {showRatList (ents.map (·.re))} {showRatList (ents.map (·.im))} {showRatList (co.map (·.re))} {showRatList (co.map (·.im))} {showRatList (cr.map (·.re))} {showRatList (cr.map (·.im))}"
 
 def lyotOp (occ back : Bool) (fre fim bre bim mre mim sre sim ere eim : String) : String :=
   match parseRatLists? fre, parseRatLists? fim, parseRatLists? bre, parseRatLists? bim,
@@ -296,6 +318,11 @@ def step (st : St) : List String → St × String
   | ["pmatrix"] =>
     let M := perfectMatrix st.pT st.pTinv st.pc
     (st, "ok " ++ showRatLists ((toList M).map fun r => toList r))
+  | ["vvrun", hist, twl, tch, tsh, c2, s2, plus] =>
+    match parseRatList? hist, parseRatList? twl, parseRatList? tch, parseRatList? tsh, parseRat? c2, parseRat? s2, parseNat? plus with
+    | some hist, some twl, some tch, some tsh, some c2, some s2, some plus =>
+      if plus > 1 then (st, "bad-op") else (st, vvRunOp hist twl tch tsh c2 s2 (plus == 1))
+    | _, _, _, _, _, _, _ => (st, "bad-op")
   | "msalg" :: rest => (st, msAlgOp false rest)
   | "msalgb" :: rest => (st, msAlgOp true rest)
   | "msteleb" :: rest => (st, msTeleB rest)
